@@ -39,4 +39,4 @@ def run(r):
                      "form values restricted to WinAnsi-representable text (others are rejected by design); /V compared as the bytes written (text-string encoding is C10's subject)",
                      "uses C04's model and theorem for 'takes effect'; needs fix_c04_stale_compressed.patch for object-stream bases",
                      "IncrementalFormFiller's own tail assembly is modelled (theories/C17/Filler.v filler_out) and proved append-only / covering / taking effect; its tie is four outputs of the real fill_many embedded as vm_compute Examples plus the api channel's observations (prefix, structure, re-read) — the api channel does not record the output bytes, so filler_out is not compared on every run; PdfWriter::write_incremental_* (page replacement / overlay) are not modelled and not exercised"]
-    return standard(r, "c17", ["theories/C17/Proofs.vo", "theories/C17/Filler.vo"], ["theories/C17/Model.vo"], ["fin", "api"], pre=corpus)
+    return standard(r, "c17", ["theories/C17/Proofs.vo", "theories/C17/Filler.vo", "theories/C17/ParseBack.vo"], ["theories/C17/Model.vo"], ["fin", "api"], pre=corpus)
